@@ -2734,6 +2734,10 @@ theorem treeWF_of_validate (t : RawTree) (hv : t.validate = .ok ()) (hN : t.hier
   by_cases h1 : (!t.hasHierarchy) = true
   · simp [h1] at hv
   · simp only [h1, Bool.false_eq_true, if_false] at hv
+    -- (the duplicate-level test of `fix:` 799c7a6 sits between the two)
+    by_cases h0 : RawTree.hasDup t.hierarchy = true
+    · simp [h0] at hv
+    simp only [h0, if_false] at hv
     by_cases h2 : (!t.keysMatch) = true
     · simp [h2] at hv
     · simp only [Bool.not_eq_true', Bool.not_eq_false] at h2
